@@ -356,6 +356,48 @@ func exprHasConst(v ssa.Value, want int64, depth int) bool {
 	return false
 }
 
+// strideOf decodes the lower bound of a destination slice inside a counted loop:
+// returns (start, stride) for `buf[cursor:]` with cursor = phi(c0, cursor+k), or for `base[i*k : ...]` with base = buf[c0:...].
+func strideOf(sl *ssa.Slice) (int64, int64, bool) {
+	low := sl.Low
+	if low == nil {
+		return 0, 0, false
+	}
+	baseStart := int64(0)
+	if inner, ok := sl.X.(*ssa.Slice); ok && inner.Low != nil {
+		if c, ok := inner.Low.(*ssa.Const); ok {
+			baseStart = c.Int64()
+		}
+	}
+	switch x := low.(type) {
+	case *ssa.Phi:
+		var init, step int64 = -1, -1
+		for _, e := range x.Edges {
+			if c, ok := e.(*ssa.Const); ok {
+				init = c.Int64()
+			}
+			if bo, ok := e.(*ssa.BinOp); ok && bo.Op == token.ADD && bo.X == x {
+				if c, ok := bo.Y.(*ssa.Const); ok {
+					step = c.Int64()
+				}
+			}
+		}
+		if init >= 0 && step > 0 {
+			return baseStart + init, step, true
+		}
+	case *ssa.BinOp:
+		if x.Op == token.MUL {
+			if c, ok := x.Y.(*ssa.Const); ok {
+				return baseStart, c.Int64(), true
+			}
+			if c, ok := x.X.(*ssa.Const); ok {
+				return baseStart, c.Int64(), true
+			}
+		}
+	}
+	return 0, 0, false
+}
+
 func runTAB03(p *Prog, r *RuleRun) {
 	pk := p.Pkg["segment"]
 	info := pk.TypesInfo
@@ -373,35 +415,46 @@ func runTAB03(p *Prog, r *RuleRun) {
 	}
 	w := writers[0]
 	wpos := p.Position(w.Pos())
-	// cursor := frameHeaderLen ; PutUint32(buf[cursor:], o) ; cursor += 4
+	// SSA view: inside a loop, LittleEndian.PutUint32(dst, offsets[i]) with dst starting at start + stride*i;
+	// accepted shapes: a cursor phi (init c0, += k) or an index expression i*k on a slice of buf starting at c0
+	wfn := p.Func("segment", w.Name.Name)
 	var start, stride int64 = -1, -1
-	put32 := false
-	ast.Inspect(w.Body, func(n ast.Node) bool {
-		switch x := n.(type) {
-		case *ast.AssignStmt:
-			if len(x.Lhs) == 1 && len(x.Rhs) == 1 {
-				if x.Tok == token.DEFINE {
-					if c, ok := constInt(info, x.Rhs[0]); ok {
-						if _, isID := x.Lhs[0].(*ast.Ident); isID && start < 0 {
-							start = c
+	put32, pads := false, false
+	if wfn != nil {
+		for _, b := range wfn.Blocks {
+			for _, ins := range b.Instrs {
+				switch x := ins.(type) {
+				case *ssa.Call:
+					if isBuiltinCall(x, "clear") {
+						pads = true
+					}
+					if eventName(x) != "binary.littleEndian.PutUint32" || len(x.Call.Args) < 3 {
+						continue
+					}
+					if c, ok := x.Call.Args[2].(*ssa.Const); ok && c.Int64() == 0 {
+						pads = true // explicit zero padding word
+						continue
+					}
+					put32 = true
+					if sl, ok := x.Call.Args[1].(*ssa.Slice); ok {
+						if st, sd, ok := strideOf(sl); ok {
+							start, stride = st, sd
+						}
+					}
+				case *ssa.Store:
+					if c, ok := x.Val.(*ssa.Const); ok && c.Value != nil && c.Int64() == 0 {
+						if _, isIdx := x.Addr.(*ssa.IndexAddr); isIdx {
+							pads = true
 						}
 					}
 				}
-				if x.Tok == token.ADD_ASSIGN {
-					if c, ok := constInt(info, x.Rhs[0]); ok {
-						stride = c
-					}
-				}
-			}
-		case *ast.CallExpr:
-			if order, m, ok := byteOrderCall(info, x); ok && m == "PutUint32" && order == "LittleEndian" {
-				put32 = true
 			}
 		}
-		return true
-	})
+	}
 	r.Check(put32 && start == int64(fhl) && stride == 4, "writer:stride", wpos, "index entries are little-endian uint32, written from the payload start with stride 4",
 		fmt.Sprintf("index frame writer: LE32=%v start=%d (want %d) stride=%d (want 4)", put32, start, fhl, stride))
+	r.Check(pads, "writer:zero-pad", wpos, "the alignment word after an odd number of index entries is explicitly zeroed",
+		"the index frame writer never zeroes the 4 alignment bytes that follow an odd number of entries: the frame is encoded into a reused buffer, so stale bytes of an earlier batch end up on disk where the format documents NULL padding")
 	// reader: IndexStart + (idx - BaseIndex)*4, read 4 bytes LE32
 	rd := findFuncDecl(pk, "Reader.findFrameOffset")
 	if rd == nil {
@@ -667,6 +720,33 @@ func runTAB05(p *Prog, r *RuleRun) {
 			return true
 		})
 		return out
+	}
+	// time.MarshalBinary is variable length (15 bytes, 16 for zone offsets with seconds) and the field is the
+	// last one: the decoder must hand UnmarshalBinary everything that is left, not a fixed-length prefix
+	if fd := findFuncDecl(pk, "decoder.time"); fd != nil {
+		whole, found := false, false
+		ast.Inspect(fd.Body, func(n ast.Node) bool {
+			ce, ok := n.(*ast.CallExpr)
+			if !ok {
+				return true
+			}
+			se, ok := ce.Fun.(*ast.SelectorExpr)
+			if !ok || se.Sel.Name != "UnmarshalBinary" || len(ce.Args) != 1 {
+				return true
+			}
+			found = true
+			switch a := ast.Unparen(ce.Args[0]).(type) {
+			case *ast.SelectorExpr, *ast.Ident:
+				whole = true
+			case *ast.SliceExpr:
+				whole = a.High == nil && a.Max == nil
+			}
+			return true
+		})
+		r.Check(found && whole, "pair:time:whole-rest", p.Position(fd.Pos()), "the timestamp decoder passes all remaining bytes to UnmarshalBinary (the encoding is 15 or 16 bytes long)",
+			"the timestamp decoder hands UnmarshalBinary a fixed-length prefix: time.MarshalBinary emits 16 bytes for zone offsets that are not whole minutes, so such AppendedAt values are stored and acknowledged but can never be decoded again")
+	} else {
+		r.Unknown("pair:time:whole-rest", dpos, "decoder.time not found")
 	}
 	pairs := []struct{ m, e, d string }{{"varint", "PutUvarint", "Uvarint"}, {"bytes", "varint", "varint"}, {"bytes", "Write", "copy"}, {"time", "MarshalBinary", "UnmarshalBinary"}}
 	for _, pr := range pairs {
